@@ -706,6 +706,10 @@ func (b *Builder) UnBounded(o interface{}, x bool) {
 
 func (b *Builder) Default(o interface{}, defaultVal string) {
 	if h, valid := o.(HasDefault); valid {
+		if _, single := o.(HasDefaultValue); single && h.HasDefault() {
+			b.setErr(fmt.Errorf("%T already has a default", o))
+			return
+		}
 		h.addDefault(defaultVal)
 	} else {
 		b.setErr(fmt.Errorf("%T does not support default", o))
